@@ -30,7 +30,7 @@ for w in what:
             print(f"  {flag} {r['name']} [{r['kind']}] {r['seconds']:.2f}s {r['backend']} {r['reason']}")
             if r['status'] != 'proved':
                 print('      clause:', r['clause'][:200])
-                print('      path:', ' | '.join(r['path'])[:600])
+                print('      path: ...', ' | '.join(r['path'])[-300:])
                 if r.get('model') and '-v' in sys.argv:
                     print('      model:', json.dumps(r['model'], indent=1)[:3000])
 print(f'total {time.time() - t0:.1f}s')
